@@ -59,6 +59,15 @@ class NoLossOracle(HOracle):
         self.marks_checked = 0
         self.unlinks_checked = 0
 
+    def on_event(self, ev, sim):
+        if ev["kind"] == "disk-forgot" and ev.get("path", "").startswith("bounce/"):
+            try:
+                m = self.ledger.msg(int(ev["path"].split("/")[-1]))
+            except ValueError:
+                m = None
+            if m is not None:
+                m.bounce_lost_gen = self.ledger.generation
+
     def on_step(self, ev, sim):
         # (a) a D mark may only follow a K or D report (Z only when the pass is dying)
         if ev.get("c") == "write" and ev.get("len") == 1 and ev.get("data") == "44" and ev.get("ret") == 1:
@@ -131,15 +140,29 @@ class NoLossOracle(HOracle):
                         r.discarded = True
                         continue
                     if not self.bounced(m, r):
+                        if getattr(m, "bounce_lost_gen", None) is not None and (r.finished_gen or 0) <= m.bounce_lost_gen:
+                            # INTERNALS: "bounce/457 is not crashproof" - the note was written, then a crash
+                            # lost the un-fsynced bounce file (disk variant); the documented exemption
+                            self.res.counters.inc("exempt_bounce_record_lost_in_crash")
+                            continue
                         self.violate("C03/failed-recipient-not-in-a-queued-bounce",
-                                     "info/%d unlinked; recipient %r failed permanently but no queued notice names it" % (num, r.addr))
+                                     "info/%d unlinked; recipient %r failed permanently but no queued notice names it" % (num, r.addr),
+                                     {"notices_seen": [{"to": [core.hx(x) for x in rec.get("recips", [])],
+                                                        "parent": rec["parent"].key() if rec.get("parent") else None,
+                                                        "paragraph_heads": [core.hx(p.split(b"\n", 1)[0][:60]) for p in (rec.get("notice") or {}).get("paras", [])]}
+                                                       for rec in self.ledger.bounce_recs[-6:]], "message": m.key()})
                     else:
                         r.bounced = True
 
     def bounced(self, m, r):
         for rec in self.ledger.bounce_recs:
-            if rec.get("parent") is not m:
+            if not rec.get("complete"):
                 continue
+            if rec.get("parent") is not m:
+                # parent links are computed when a record is first seen; decide again now that every body is known
+                orig = (rec.get("notice") or {}).get("original") or b""
+                if not (m.body and m.body in orig):
+                    continue
             n = rec.get("notice")
             if not n:
                 continue
